@@ -8,7 +8,7 @@ from . import smt
 from .state import State
 from .values import (
     Unsupported, Sym, Ref, TupleV, FuncV, LambdaV, BuiltinV, ClassV, ModuleV, SuperV, Raised, ExcSym,
-    PyList, SeqV, PyDict, Obj, ArrState, DataView, MaskView, Idx, StackState, Slice, is_concrete, num_term, isint_of,
+    PyList, SeqV, PyDict, Bag, Obj, ArrState, DataView, MaskView, Idx, StackState, Slice, is_concrete, num_term, isint_of,
     is_num, zand, zor, znot,
 )
 from .exprs import ExprMixin
@@ -543,6 +543,20 @@ class Engine(DynMixin, ExprMixin, ModelMixin, BuiltinMixin, MAMixin):
     def st_For(self, node, st):
         if node.orelse:
             raise Unsupported("for/else")
+        if isinstance(node.iter, ast.GeneratorExp) and len(node.iter.generators) == 1 and not getattr(node, "_desugared", False):
+            # for x in (e for y in ys if c): body   ==>   for y in ys: if c: x = e; body      (A-GEN)
+            g = node.iter.generators[0]
+            inner = [ast.Assign(targets=[node.target], value=node.iter.elt, lineno=node.lineno, col_offset=0)] + list(node.body)
+            if g.ifs:
+                test = g.ifs[0] if len(g.ifs) == 1 else ast.BoolOp(op=ast.And(), values=list(g.ifs))
+                inner = [ast.If(test=test, body=inner, orelse=[], lineno=node.lineno, col_offset=0)]
+            new = ast.For(target=g.target, iter=g.iter, body=inner, orelse=[], lineno=node.lineno, col_offset=0)
+            ast.fix_missing_locations(new)
+            new._desugared = True
+            new._ordinal_node = node
+            for r in self.st_For(new, st):
+                yield r
+            return
         for st1, it in self.ev(node.iter, st):
             if isinstance(it, Raised):
                 yield st1, ("raise", it.exc)
@@ -577,7 +591,7 @@ class Engine(DynMixin, ExprMixin, ModelMixin, BuiltinMixin, MAMixin):
 
     def _symbolic_loop(self, node, st, seq):
         fi = self.frames[-1]
-        ordn = self.loop_ordinal("for", node)
+        ordn = self.loop_ordinal("for", getattr(node, "_ordinal_node", node))
         key = (fi.key, "for", ordn)
         lc = self.loop_contracts.get(key)
         if lc is None:
